@@ -93,6 +93,30 @@ def collect(root, only=None):
             print(prop, res['dir'], 'kept as', dest)
 
 
+ALL_PROPS = ['C%02d' % k for k in range(1, 21)]
+
+
+def run_all(ids, j):
+    """every patch against every property: which obligations / checks of *other* properties does a harmless change touch?"""
+    ids = ids or sorted(os.listdir(SET))
+    tally = {}
+
+    def one(i):
+        return i, mutants.one('ha_' + i, patch=f'{SET}/{i}/patch.diff', props=ALL_PROPS)[1]
+    with ThreadPoolExecutor(j) as ex:
+        for i, out in ex.map(one, ids):
+            row = {}
+            for p_, r in out.items():
+                if not isinstance(r, dict):
+                    continue
+                v = 'quiet' if r.get('exit') == 0 else (r.get('how') or f"exit={r.get('exit')}")
+                if v != 'quiet':
+                    row[p_] = (v, r.get('what'))
+                tally[v] = tally.get(v, 0) + 1
+            print(i, row or 'all quiet', flush=True)
+    print(tally)
+
+
 def run(ids, j):
     ids = ids or sorted(os.listdir(SET))
     tally = {}
@@ -119,4 +143,7 @@ if __name__ == '__main__':
         j = 8
         if a[:1] == ['-j']:
             j = int(a[1]); a = a[2:]
-        run(a, j)
+        if sys.argv[1] == 'runall':
+            run_all(a, j)
+        else:
+            run(a, j)
